@@ -83,7 +83,8 @@ def _(v):
         v.prove("canary", SP.neg(v.eq(out.value, tot / 2 + 1)))
         warned = len(v.events("warning")) > 0
         if warned:
-            v.prove("warned_only_if_enabled_and_not_neutral", SP.conj([warn, SP.neg(v.eq(net, 0))]))
+            # exact comparison (in the sampled mode v.eq would be a tolerance test and call a net charge of 1e-13 'neutral')
+            v.prove("warned_only_if_enabled_and_not_neutral", SP.conj([warn, SP.neg(net == 0)]))
         else:
             absnet = SP.ite(net >= 0, net, -net)
             v.prove("silent_only_if_disabled_or_nearly_neutral", SP.disj([SP.neg(warn), absnet * (1 - 1e-8) <= tot * 1e-14 + (0 if v.symbolic else 1e-18)]))
@@ -246,6 +247,11 @@ def _(v):
     v.prove_identity("reduces_to_limiting", v.call(E.extended_log_gamma, IS, z, 0, A, B, 0), v.call(E.limiting_log_gamma, IS, z, A))
     v.prove_identity("zero_at_I0", v.call(E.extended_log_gamma, 0, z, a, A, B, C), 0 * A)
     v.prove_identity("default_C_is_zero", v.call(E.extended_log_gamma, IS, z, a, A, B), -A * z * z * s / (1 + B * a * s))
+    # reference ionic strength I0 (the unit of IS): the formula is in IS/I0 throughout, with the sign of the limiting law
+    I0 = v.real("I0", lo=0.5, hi=2)
+    s0 = _sqrt(v, IS / I0)
+    v.prove_identity("with_reference_ionic_strength", v.call(E.extended_log_gamma, IS, z, a, A, B, C, I0), -A * z * z * s0 / (1 + B * a * s0) + C * (IS / I0))
+    v.prove_identity("limiting_with_reference_ionic_strength", v.call(E.limiting_log_gamma, IS, z, A, I0), -A * z * z * s0)
 
 
 @harness("C18", "davies_log_gamma", functions=[MOD + ":davies_log_gamma"], div_mode="assume", samples=30)
@@ -258,6 +264,9 @@ def _(v):
     v.prove_identity("formula", r, -A * z * z * (s / (1 + s) + C * IS))
     v.prove_identity("zero_at_I0", v.call(E.davies_log_gamma, 0, z, A, C), 0 * A)
     v.prove_identity("default_C", v.call(E.davies_log_gamma, IS, z, A), -A * z * z * (s / (1 + s) - 0.3 * IS))
+    I0 = v.real("I0", lo=0.5, hi=2)
+    s0 = _sqrt(v, IS / I0)
+    v.prove_identity("with_reference_ionic_strength", v.call(E.davies_log_gamma, IS, z, A, C, I0), -A * z * z * (s0 / (1 + s0) + C * (IS / I0)))
 
 
 def _exp(v, x):
@@ -272,8 +281,9 @@ def _products(kind):
         fn = getattr(E, kind + "_activity_product")
         lg = getattr(E, kind + "_log_gamma")
         IS = v.real("IS", lo=0, hi=3)
-        T, eps, rho = v.real("T", lo=250, hi=650), v.real("eps_r", lo=5, hi=100), v.real("rho", lo=500, hi=1500)
-        stoich = v.seq("stoich", "int", lo=0, hi=4, maxlen=4, minlen=1)
+        T, eps, rho = v.real("T", lo=250, hi=650), v.real("eps_r", lo=40, hi=100), v.real("rho", lo=500, hi=1500)   # (eps_r >= 40 keeps exp() of the sampled products within double range)
+        stoich = v.seq("stoich", "int", lo=-4, hi=4, maxlen=4, minlen=1)      # products positive, reactants negative
+        Cc = v.real("C", lo=-1, hi=1)
         zs = v.seq("z", "int", lo=-4, hi=4, maxlen=4, minlen=1)
         aa = v.seq("a", "real", lo=0, hi=9, maxlen=4, minlen=1)
         n = len(stoich) if not v.symbolic else stoich.sym_len()
@@ -289,8 +299,8 @@ def _products(kind):
             if kind == "limiting":
                 return SP.select(stoich, j) * v.call(lg, IS, SP.select(zs, j), Aval)
             if kind == "extended":
-                return SP.select(stoich, j) * v.call(lg, IS, SP.select(zs, j), SP.select(aa, j), Aval, Bval, 0)
-            return SP.select(stoich, j) * v.call(lg, IS, SP.select(zs, j), Aval, -0.3)
+                return SP.select(stoich, j) * v.call(lg, IS, SP.select(zs, j), SP.select(aa, j), Aval, Bval, Cc)
+            return SP.select(stoich, j) * v.call(lg, IS, SP.select(zs, j), Aval, Cc)
         idx = list(range(n)) if not v.symbolic else None
         if v.symbolic:
             from pyvc.containers import SymSeq
@@ -301,9 +311,9 @@ def _products(kind):
         if kind == "limiting":
             r = v.call(fn, IS, stoich, zs, T, eps, rho)
         elif kind == "extended":
-            r = v.call(fn, IS, stoich, zs, aa, T, eps, rho)
+            r = v.call(fn, IS, stoich, zs, aa, T, eps, rho, Cc)
         else:
-            r = v.call(fn, IS, stoich, zs, aa, T, eps, rho)
+            r = v.call(fn, IS, stoich, zs, aa, T, eps, rho, Cc)
         v.prove("post", v.eq(r, _exp(v, SP.ssum(terms))))
     return _
 
